@@ -17,7 +17,10 @@
 (***************************************************************************)
 EXTENDS GHist, Json
 CONSTANTS MaxComp, MaxCommits, MaxTags, MaxBranches, Emit,
-          Diamond      \* TRUE: the component graph is the diamond 1 <- 2, 1 <- 3, {2, 3} <- 4 with at most one tag per commit
+          Diamond,     \* TRUE: the component graph is the diamond 1 <- 2, 1 <- 3, {2, 3} <- 4 with at most one tag per commit
+          Sideways,    \* TRUE: a pin may move to a build with a higher number that does not contain the old one (a parallel build);
+                       \* only pairs in which some pin really moves sideways are reported then
+          LinearParent \* TRUE: the parent history is one line of commits
 
 VARIABLES ck, cmatch, ctagged,                 \* component; ctagged[c] = number of build tags on commit c (0..2)
           cparents,                             \* component commit graph
@@ -49,7 +52,10 @@ EndComp == /\ phase = "comp" /\ CTagged # {} /\ phase' = "commits" /\ (Diamond =
            /\ UNCHANGED <<ck, cmatch, ctagged, cparents, n, parents, match, tagged, head, pin, pin2>>
 Commit(ps, m, tg, pn, p2) ==
   /\ phase = "commits" /\ n < MaxCommits
-  /\ pn \in CTagged /\ \A p \in ps : pin[p] \in CAnc(pn)          \* the pinned version never decreases along a path
+  /\ (LinearParent => ps = (IF n = 0 THEN {} ELSE {n}))
+  /\ pn \in CTagged
+  /\ IF Sideways THEN \A p \in ps : pin[p] <= pn             \* the version NUMBER never decreases (the new pin may be a parallel build)
+                  ELSE \A p \in ps : pin[p] \in CAnc(pn)      \* the pinned version never decreases along a path: it contains the old pin
   /\ (p2 => ctagged[pn] = 2)
   /\ (Diamond => \A p \in ps : pin[p] # pn \/ TRUE)
   /\ \A p \in ps : (pin[p] = pn /\ pin2[p]) => p2
@@ -76,8 +82,9 @@ FirstShipping(b, CB) ==
 IncludedAt(CB) == { <<b, B>> : b \in DOMAIN head, B \in 1 .. n } \cap
                   UNION { { <<b, B>> : B \in FirstShipping(b, CB) } : b \in DOMAIN head }
 
+HasSideways == \E c \in 1 .. n : \E p \in parents[c] : pin[p] \notin CAnc(pin[c])
 Report == /\ phase = "done" /\ phase' = "reported"
-          /\ Emit => PrintT(ToJson([ck |-> ck, cmatch |-> cmatch, ctagged |-> ctagged, cparents |-> cparents, linear |-> Linear,
+          /\ (Emit /\ (Sideways => HasSideways)) => PrintT(ToJson([ck |-> ck, cmatch |-> cmatch, ctagged |-> ctagged, cparents |-> cparents, linear |-> Linear,
                                     h |-> [n |-> n, parents |-> parents, match |-> match, tagged |-> tagged, head |-> head],
                                     pin |-> pin, pin2 |-> pin2, rb |-> RB,
                                     incl |-> [cb \in CTagged |-> IncludedAt(cb)]]))
